@@ -441,3 +441,30 @@ def enum_index_confusions(prog, fids=None):
         if t != best[0][0] and (fids is None or f.id in fids):
             out.append((f, n, arr, depth, best[0][0], t))
     return out
+
+
+def range_for_consts(loop):
+    """`for (T x : {c1, c2, ...})` over compile-time constants: (the loop variable's VarDecl, [c1, c2, ...], body), else None"""
+    if loop is None or loop.get('k') != 'CXXForRangeStmt':
+        return None
+    ch = [c for c in (loop.get('ch') or [])]
+    decls = [d for c in ch if c is not None and c['k'] == 'DeclStmt' for d in kids(c) if d['k'] == 'VarDecl']
+    rng = [d for d in decls if (d.get('name') or '').startswith('__range') and kids(d)]
+    var = [d for d in decls if not (d.get('name') or '').startswith('__')]
+    if len(rng) != 1 or len(var) != 1 or not ch or ch[-1] is None:
+        return None
+    if 'initializer_list' not in (rng[0].get('t') or ''):
+        return None
+    lists = [x for x in walk(kids(rng[0])[0]) if x['k'] == 'InitListExpr']
+    if len(lists) != 1:
+        return None
+    vals = []
+    for el in kids(lists[0]):
+        c = const_of(strip_casts(el))
+        if c is None:
+            return None
+        vals.append(c)
+    t = (var[0].get('t') or '')
+    if '&' in t and 'const' not in t:
+        return None
+    return var[0], vals, ch[-1]
